@@ -40,17 +40,19 @@ func (check) Cases(tier string) int {
 }
 
 func (check) Rule() string {
-	return "one data tree per case (top-level dictionary, keys a,b,c repeated at every depth, depth 3 (1/8: 5), lists up to 3 (1/8: 6) wide, leaves from gen.Prims plus Go ints/uints/floats of all widths, nil, {}, []; every case adds 9 freshly drawn numbers of random Go types to the leaf pool (float32/float64 from random bit patterns, short decimal fractions, integral and scaled normal values; integers over the whole range of their width) and gives 1/3 of the all-leaf lists and 1/6 of the all-leaf dictionaries one random element type so that []T, [N]T, *[N]T, map[string]T are frequent; 3/4 of the cases insist on nested containers) given (1) in ~13 Go representations (map[string]interface{}, map[interface{}]interface{}, reflect.StructOf structs with renaming tags / inline struct and map groups / ignored fields / typed nil fields, map[string]T, []T, [N]T, *[N]T, map[string]map, []map, pointers to maps, structs and primitives, pointers to pointers, *Config built from another representation, a Child handle, maps holding *Config or Config values, a per-node random mixture; in the first 3 cases of a run also a top-level Config passed by value), with and without PathSep; the structs of the per-node carriers are written under a random tag name (config, json, cfg, yaml) selected by the StructTag option of the call, and a third of their fields carry a second tag of another name that names, ignores or inlines the field differently; (2) unpacked into map[string]interface{} and fed back (canonical equality and VerifWalk structure equality, wiring of every node); (3) in ~4 random partial flattenings into dotted keys with PathSep(\".\") (each dictionary edge folded or nested, sub-trees divided at any depth between several dotted keys and a nested rest, dotted keys inside nested maps, complete lists spelled by numeric positions) each carried by 1-2 of: map, interface-keyed map, typed map, struct tags, mixture; (4) in 2 map-carried duplicate constructions (a: one leaf dotted and nested / two partial spellings of its path; b: dotted key below a primitive defined flat, nested or dotted; c: dotted list position plus the list, flat or nested) embedded in the tree at depth 0-2, each built 40 times with permuted insertion order, and 1 deterministic struct-carried duplicate (same tag twice, inline struct/map vs named field, dotted tag vs nested field, dotted tag below a scalar field; both declaration orders); (5) as one run-time struct type (nested, by value/pointer) whose fields carry 2-3 tag sets at once, each field independently named (tree key, other key, fresh, dotted) / inlined / ignored under each tag set, normalised 3-5 times in a row while switching the StructTag option (default tag included) and the form (value, pointer, inside a map, inside []interface{}, element of []T and of map[string]T; NewFrom or Merge into an empty config): every call must give the tree its own tag set describes. Non-trivial = tree with >= 2 container levels and >= 3 primitive leaves; distinct = distinct tree."
+	return "one data tree per case (top-level dictionary, keys a,b,c repeated at every depth, depth 3 (1/8: 5), lists up to 3 (1/8: 6) wide, leaves from gen.Prims plus Go ints/uints/floats of all widths, nil, {}, []; every case adds 9 freshly drawn numbers of random Go types to the leaf pool (float32/float64 from random bit patterns, short decimal fractions, integral and scaled normal values; integers over the whole range of their width) and gives 1/3 of the all-leaf lists and 1/6 of the all-leaf dictionaries one random element type so that []T, [N]T, *[N]T, map[string]T are frequent; 3/4 of the cases insist on nested containers) given (1) in ~13 Go representations (map[string]interface{}, map[interface{}]interface{}, reflect.StructOf structs with renaming tags / inline struct and map groups / ignored fields / typed nil fields, map[string]T, []T, [N]T, *[N]T, map[string]map, []map, pointers to maps, structs and primitives, pointers to pointers, *Config built from another representation, a Child handle, maps holding *Config or Config values, a per-node random mixture; in the first 3 cases of a run also a top-level Config passed by value), with and without PathSep; the structs of the per-node carriers are written under a random tag name (config, json, cfg, yaml) selected by the StructTag option of the call, and a third of their fields carry a second tag of another name that names, ignores or inlines the field differently; (2) unpacked into map[string]interface{} and fed back (canonical equality and VerifWalk structure equality, wiring of every node); (3) in ~4 random partial flattenings into dotted keys with PathSep(\".\") (each dictionary edge folded or nested, sub-trees divided at any depth between several dotted keys and a nested rest, dotted keys inside nested maps, complete lists spelled by numeric positions) each carried by 1-2 of: map, interface-keyed map, typed map, struct tags, mixture; (4) in 2 map-carried duplicate constructions (a: one leaf dotted and nested / two partial spellings of its path; b: dotted key below a primitive defined flat, nested or dotted; c: dotted list position plus the list, flat or nested) embedded in the tree at depth 0-2, each built 40 times with permuted insertion order, and 1 deterministic struct-carried duplicate (same tag twice, inline struct/map vs named field, dotted tag vs nested field, dotted tag below a scalar field; both declaration orders); (5) as one run-time struct type (nested, by value/pointer) whose fields carry 2-3 tag sets at once, each field independently named (tree key, other key, fresh, dotted) / inlined / ignored under each tag set, normalised 3-5 times in a row while switching the StructTag option (default tag included) and the form (value, pointer, inside a map, inside []interface{}, element of []T and of map[string]T; NewFrom or Merge into an empty config): every call must give the tree its own tag set describes; a quarter of the dictionary valued fields hold an existing Config (named or inlined); (6) with one dictionary S built once as ONE Go value (root *Config, child handle, Config by value, *struct, *map, map, interface-keyed map, struct) and used under 2-3 keys of the tree and twice in a list, some places extended by dotted sibling keys into S's namespace (also below a dictionary of S) or by a second struct field of the same name, carried by a struct in both declaration orders or a map and normalised 2-3 times in a row. Everywhere: inline groups of struct carriers also arrive as *Config / Config by value / interface{} holding *Config; every representation and flattening is normalised a second time from the same Go value (same data, same stored structure); every *Config inside an input is compared with its content, parent and path before the call; flattenings divide dictionaries with nil placeholders (a setting given in one part is nil in the other) and lists by position (some positions dotted, nil placeholders or a shorter list in the nested part); struct and mixed carriers are run in both declaration orders. Non-trivial = tree with >= 2 container levels and >= 3 primitive leaves; distinct = distinct tree."
 }
 
 func (check) Assumptions() []string {
 	return []string{
 		"canonical comparison: numbers by exact value, nil == {} == [] == absent key inside dictionaries, nil list elements stay (DESIGN.md 2.6)",
 		"structure comparison (VerifWalk: path, kind, text, stored field name, dictionary and list sizes) is made after removing dictionary entries that are nil or empty and after turning empty list elements into nil, because Unpack into interface{} legitimately drops that distinction; kinds are compared exactly (no int/uint difference was found: positive signed integers are stored as uint by every route)",
-		"keys never contain the separator and are never numeric; numeric path segments are used only where the tree has a list at that point and every position of that list is given (the rest belongs to C20)",
+		"keys never contain the separator and are never numeric; numeric path segments are used only where the tree has a list at that point and every position of that list is given exactly once, by a dotted key or by the nested list (the rest belongs to C20)",
 		"duplicates use two non-nil primitive values; a nil definition and two objects with disjoint keys are not duplicates and are not generated as such; the error is accepted if Reason() is or wraps ErrDuplicateKey, wording and the blamed key are not compared",
 		"map iteration order is not controlled: each map-carried duplicate construction is rebuilt 40 times with permuted insertion order and judged on the set of outcome classes seen (order dependence itself is C09)",
 		"VarExp off: strings containing $ { } . , are plain data",
+		"a nil placeholder next to a value is an untyped nil or a nil pointer (a nil map or slice may pass for an empty object and is not used there); an inlined Config contributes its named settings (a list part is not generated); a nil *Config is not inlined",
+		"inputs are data: the same Go value normalises to the same config in every call and at every place; configs handed in keep content, Parent() and Path()",
 		"numbers: any finite value of any Go number type except NaN, infinities and negative zero (not pinned down); a float32 stands for the real number it holds exactly",
 		"struct tags: only name, inline/squash and ignore are generated; fields without the selected tag (default names), unexported fields and the merge/replace/append/prepend flags are not generated; names written under one tag set never collide inside one namespace (duplicates are part 4); a struct type with a dotted name under any of its tag sets is always read with PathSep",
 	}
@@ -471,16 +473,17 @@ func ptrTo(v interface{}) interface{} {
 }
 
 type builder struct {
-	r         *rand.Rand
-	pathSep   bool // nested *Config values are built with PathSep(".")
-	noInline  bool
-	tag       string // struct tag name the structs are written with ("" = the default `config`, no option needed)
-	decoys    bool   // fields may carry a second tag of another name that says something else
-	err       error  // first error building a nested *Config
-	cfgs      []cfgSnap
-	inlineCfg int // inline fields carried by an existing Config
-	evals     int
-	parts     map[string]bool
+	r           *rand.Rand
+	pathSep     bool // nested *Config values are built with PathSep(".")
+	noInline    bool
+	noInlineCfg bool   // no inline fields carried by an existing Config
+	tag         string // struct tag name the structs are written with ("" = the default `config`, no option needed)
+	decoys      bool   // fields may carry a second tag of another name that says something else
+	err         error  // first error building a nested *Config
+	cfgs        []cfgSnap
+	inlineCfg   int // inline fields carried by an existing Config
+	evals       int
+	parts       map[string]bool
 }
 
 func newBuilder(r *rand.Rand, pathSep bool) *builder {
@@ -530,7 +533,7 @@ type cfgSnap struct {
 }
 
 func snapConfig(c *ucfg.Config) (sn cfgSnap, ok bool) {
-	var m interface{}
+	var m map[string]interface{}
 	var err error
 	if p, _, _ := harness.Safe(func() {
 		err = c.Unpack(&m)
@@ -802,7 +805,7 @@ func (b *builder) structOf(s *sp, child int, ptr bool) interface{} {
 				m[e.key] = b.node(e.val, child, false)
 			}
 			inl = m
-			if b.r.Intn(3) == 0 {
+			if !b.noInlineCfg && b.r.Intn(3) == 0 {
 				// the group arrives as an existing Config (Merge: an inlined field
 				// "can be a struct, a slice, an array, a map or of type *Config")
 				var opts []ucfg.Option
@@ -1736,7 +1739,7 @@ func (check) Run(seed int64, tier string, idx int, verbose bool) harness.Result 
 		t = gen.TopDict(r, o, depth)
 	}
 	homogenize(r, t)
-	k := &kase{res: res, idx: idx, r: r, t: t, want: t.Canon(), verbose: verbose}
+	k := &kase{res: res, idx: idx, r: r, t: t, want: t.Canon(), verbose: verbose, o: o}
 	k.leafMonitors(t)
 	if levels(t) >= 2 && leaves(t) >= 3 {
 		res.Key(t.String())
@@ -1745,6 +1748,7 @@ func (check) Run(seed int64, tier string, idx int, verbose bool) harness.Result 
 
 	k.representations()
 	views := k.tagViews()
+	shared := k.sharedValues()
 	flat := k.flattenings(4)
 	var dups []string
 	for i := 0; i < 2; i++ {
@@ -1753,12 +1757,12 @@ func (check) Run(seed int64, tier string, idx int, verbose bool) harness.Result 
 	dups = append(dups, k.structDuplicate(structDups[r.Intn(len(structDups))]))
 
 	if idx < 2 || verbose {
-		s := map[string]interface{}{"tree": t.String(), "canonical": k.want, "flattenings": flat, "duplicates": dups, "multi_tag_struct": views}
+		s := map[string]interface{}{"tree": t.String(), "canonical": k.want, "flattenings": flat, "duplicates": dups, "multi_tag_struct": views, "shared_value": shared}
 		if idx < 2 {
 			res.Sample = s
 		}
 		if verbose {
-			fmt.Printf("tree %s\n canonical %s\n flattenings %v\n duplicates %v\n multi-tag struct %s\n", t, k.want, flat, dups, views)
+			fmt.Printf("tree %s\n canonical %s\n flattenings %v\n duplicates %v\n multi-tag struct %s\n shared value %s\n", t, k.want, flat, dups, views, shared)
 		}
 	}
 	return res.Done()
